@@ -286,6 +286,7 @@ const (
 	kUint32s              // []uint32
 	kStrings              // []string, only as the result of a library call (read-only: indexed, measured, ranged over; loops_strs.go)
 	kBig                  // *big.Int: Int, under the ownership discipline of stage 10 (loops_big.go)
+	kKey                  // stage 13 (loops_key.go): a result of a foreign interface type: nil or a pointer to a new key struct
 )
 
 func (k lkind) lean() string {
@@ -320,6 +321,8 @@ func (k lkind) lean() string {
 		return "List (List (BitVec 8))"
 	case kBig:
 		return "Int"
+	case kKey:
+		return keyLeanType
 	}
 	if s, ok := ifaceLean(k); ok { // stage 11 (loops_iface.go)
 		return s
@@ -482,6 +485,7 @@ type loopTr struct {
 	arrParams []types.Object // array parameters `a [N]T` (passed by value): lists assumed to have length N
 	namedRes  []types.Object // named results: locals bound to their zero values in front of the body
 	big       *bigState      // stage 10 (loops_big.go): the function uses *big.Int (nil otherwise)
+	key       *keyState      // stage 13 (loops_key.go): the receiver is a key / curve of pkg/slip10/elliptic (nil otherwise)
 }
 
 func (t *loopTr) fail(n ast.Node, format string, a ...interface{}) {
@@ -510,6 +514,8 @@ func (t *loopTr) kindOf(ty types.Type, at ast.Node) lkind {
 		return kMarsh // the result of its MarshalBinary() (see loops_rec.go)
 	case isBigIntPtr(ty):
 		return kBig // stage 10 (loops_big.go)
+	case t.keyIface(ty):
+		return kKey // stage 13 (loops_key.go)
 	}
 	switch u := ty.Underlying().(type) {
 	case *types.Basic:
